@@ -1,6 +1,154 @@
-def contracts(T, reg, ctx):
-    return []
+"""C05, storage and reader side.
+
+* leaf contracts of the outcome stores: MemStateBackend._set_result / _set_exception / _get_result / _get_exception are verified (each touches
+  only its own table: storing an exception never removes a result and vice versa); the SQLite ones at glue level (one INSERT OR REPLACE into
+  the own table bound to (id, value), committed, nothing else written);
+* DistributedInvocation.get_final_result: the status it acts on is the cached final one, a fresh cached non-final one, or the orchestrator's; a
+  non-final observed status never yields a value (InvocationError), SUCCESS yields the stored result of this invocation, FAILED raises the
+  stored exception of this invocation - and under the C05 invariant (J5) neither read can miss."""
+from __future__ import annotations
+
+import z3
+
+from pyvc import sqlmodel
+from pyvc.contract import Case, Contract, Registry, Shape
+from pyvc.sqlmodel import all_events, sql_events
+from pyvc.types import BOOL, INT, REAL, STR, Atom, MapT, ObjT, Opt
+from pyvc.values import NONE, OK, RAISE, ExcVal, Val, fresh_name, mk_fresh
+
+from . import glue, world
+from .common import ID, SPEC, Types
+from .glue import EXC, REC, RES, known, status_of
+
+PID = "C05"
+MS = "pynenc.state_backend.mem_state_backend"
+SS = "pynenc.state_backend.sqlite_state_backend"
+DI = "pynenc.invocation.dist_invocation"
+PAYLOAD = glue.PAYLOAD
+
+
+def T_(b):
+    return z3.BoolVal(bool(b))
+
+
+def contracts(T: Types, reg: Registry, ctx):
+    out = []
+    # ---- in-memory outcome tables
+    TAB = MapT(ID, STR)
+    reg.add_shape(Shape("MemOutcomes", fields={"_results": TAB, "_exceptions": TAB}, cls=(MS, "MemStateBackend")))
+    same = lambda f: (f"{f}-untouched", lambda c: c.f(f) == c.old(f))
+    for meth, mine, other in (("_set_result", "_results", "_exceptions"), ("_set_exception", "_exceptions", "_results")):
+        vname = "serialized_result" if meth == "_set_result" else "serialized_exception"
+        out.append(Contract(
+            key=f"{MS}:MemStateBackend.{meth}", shape="MemOutcomes", params={"invocation_id": ID, vname: STR}, frame=[mine],
+            cases=[Case("stored", ensures=[
+                ("exactly-this-entry-written", (lambda mine, vname: lambda c: c.f(mine) == z3.Store(c.old(mine), c.arg("invocation_id"), TAB.opt.some(c.arg(vname))))(mine, vname)),
+                ("C05:the-other-kind-of-outcome-is-not-touched", (lambda other: lambda c: c.f(other) == c.old(other))(other))])],
+            properties=[PID]))
+    for meth, mine in (("_get_result", "_results"), ("_get_exception", "_exceptions")):
+        cell = (lambda mine: lambda c: z3.Select(c.old(mine), c.arg("invocation_id")))(mine)
+        out.append(Contract(
+            key=f"{MS}:MemStateBackend.{meth}", shape="MemOutcomes", params={"invocation_id": ID}, result=STR, frame=[],
+            cases=[Case("missing", when=(lambda cell: lambda c: TAB.opt.is_none(cell(c)))(cell), raises="KeyError", exact=True),
+                   Case("stored", when=(lambda cell: lambda c: TAB.opt.is_some(cell(c)))(cell),
+                        ensures=[("what-was-stored-for-this-id", (lambda cell: lambda c: c.result == TAB.opt.val(cell(c)))(cell))])],
+            properties=[PID]))
+    # ---- SQLite outcome tables (glue)
+    sqlmodel.install(reg, {"invocation_id": (ID, None), "result_data": (STR, None), "exception_data": (STR, None)})
+    if "Tables" not in reg.shapes:
+        reg.add_shape(Shape("Tables", fields={}))
+    reg.add_shape(Shape("SQLiteOutcomes", fields={"sqlite_db_path": STR, "tables": ObjT("Tables")}, cls=(SS, "SQLiteStateBackend")))
+    for meth, table, col in (("_set_result", "{self.tables.RESULTS}", "result_data"), ("_set_exception", "{self.tables.EXCEPTIONS}", "exception_data")):
+        vname = "serialized_result" if meth == "_set_result" else "serialized_exception"
+
+        def one_write(c, table=table, col=col, vname=vname):
+            ws = [e for e in sql_events(c.st) if e["kind"] in ("INSERT", "UPDATE", "DELETE")]
+            if len(ws) != 1 or ws[0]["kind"] != "INSERT" or ws[0]["table"] != table or len(ws[0]["params"]) != 2:
+                return T_(False)
+            text = " ".join(ws[0]["info"]["text"].upper().split())
+            evs = all_events(c.st)
+            iw = max(i for i, e in enumerate(evs) if e.get("ev") == "sql" and e["kind"] == "INSERT")
+            committed = any(e.get("ev") == "commit" for e in evs[iw:])
+            return z3.And(T_((" OR REPLACE " in " " + text + " " or "DO UPDATE" in text) and committed and ws[0]["info"]["columns"][:2] == ["invocation_id", col]),
+                          ws[0]["params"][0].term == c.arg("invocation_id"), ws[0]["params"][1].term == c.arg(vname))
+        out.append(Contract(
+            key=f"{SS}:SQLiteStateBackend.{meth}", shape="SQLiteOutcomes", params={"invocation_id": ID, vname: STR}, frame=[],
+            cases=[Case("stored", ensures=[("C05:one-upsert-of-(id,value)-into-the-own-table-committed-and-nothing-else-written", one_write)]),
+                   Case("commit-fault", raises="OperationalError")], properties=[PID]))
+    reg.sql_commit_faults = True
+
+    # ---- the reader
+    OST = Opt(T.Status)
+    result_of = z3.Function("stored_result_of", ID.sort(), PAYLOAD.sort())
+    sb = reg.shapes["StateBackend"]
+    sb.abstract_methods = dict(sb.abstract_methods, get_result="StateBackend.get_result", get_exception="StateBackend.get_exception")
+    reg.add(Contract(key="StateBackend.get_result", shape="StateBackend", params={"invocation_id": ID}, result=PAYLOAD, frame=[], assumed=True,
+                     check_invariants=False, effect_events=False, cases=[
+                         Case("missing", when=lambda c: z3.Not(z3.Select(c.old("res"), c.arg("invocation_id"))), raises="KeyError", exact=True),
+                         Case("stored", when=lambda c: z3.Select(c.old("res"), c.arg("invocation_id")),
+                              ensures=[("the-stored-result-of-this-invocation", lambda c: c.result == result_of(c.arg("invocation_id")))])],
+                     note="resolve(deserialize(stored string)): the value round trip is C15"))
+
+    def h_get_exception(eng, st, recv, args, kwargs):
+        i = args[0] if args else kwargs["invocation_id"]
+        exc = eng.heap_read(st, recv, "exc")
+        have, miss = st.fork(), st.fork()
+        have.assume(z3.Select(exc.term, i.term))
+        miss.assume(z3.Not(z3.Select(exc.term, i.term)))
+        out_ = []
+        from pyvc.solve import quick_sat
+        if quick_sat(have.pc):
+            out_.append((OK, have, ExcVal("StoredTaskException", exact=True, fields={"of": i})))
+        if quick_sat(miss.pc):
+            out_.append((RAISE, miss, ExcVal("KeyError", exact=True)))
+        return out_
+    reg.add(Contract(key="StateBackend.get_exception", handler=h_get_exception, assumed=True, note="returns the stored exception object of this invocation (KeyError if none)"))
+    reg.exceptions["StoredTaskException"] = ["Exception"]
+    reg.shapes["AppConf"].fields["cached_status_time"] = REAL
+    reg.add_shape(Shape("ReaderInvocation", fields={"app": ObjT("App"), "invocation_id": ID, "_cached_status": OST, "_cached_status_time": REAL},
+                        cls=(DI, "DistributedInvocation")))
+    reg.shapes["ReaderInvocation"].properties = ("status",)
+    reg.shapes["ReaderInvocation"].backrefs = [("app.orchestrator", "app", "app"), ("app.state_backend", "app", "app")]
+    O, S_ = "app.orchestrator.", "app.state_backend."
+    me = lambda c: c.f("invocation_id")
+    cur = lambda c: status_of(T, c.f(O + REC), me(c))
+    final = lambda s: T.status_in(s, SPEC["final"])
+    cached0 = lambda c: c.old("_cached_status")
+    now = lambda c: c.st.ghost["$clock0"].term if "$clock0" in c.st.ghost else z3.Real(fresh_name("no_clock_read"))
+    fresh_nonfinal = lambda c: z3.And(OST.is_some(cached0(c)), z3.Not(final(OST.val(cached0(c)))),
+                                      now(c) - c.old("_cached_status_time") < c.f("app.conf.cached_status_time"))
+    observed = lambda c: z3.If(z3.And(OST.is_some(cached0(c)), final(OST.val(cached0(c)))), OST.val(cached0(c)),
+                               z3.If(fresh_nonfinal(c), OST.val(cached0(c)), cur(c)))
+    reader = Contract(
+        key=f"{DI}:DistributedInvocation.get_final_result", shape="ReaderInvocation", params={}, result=PAYLOAD,
+        frame=["_cached_status", "_cached_status_time"],
+        requires=[("registered", lambda c: known(T, c.f(O + REC), me(c))),
+                  ("C05-invariant:SUCCESS=>result-stored,FAILED=>exception-stored", lambda c: glue.J5(T, c.f(O + REC), c.f(S_ + "res"), c.f(S_ + "exc"))),
+                  ("a-cached-final-status-is-the-current-one(final statuses are absorbing: C01)", lambda c: z3.Implies(
+                      z3.And(OST.is_some(c.f("_cached_status")), final(OST.val(c.f("_cached_status")))), cur(c) == OST.val(c.f("_cached_status"))))],
+        cases=[
+            Case("not-final", when=lambda c: z3.Not(final(observed(c))), raises="InvocationError", exact=True,
+                 ensures=[("C05:a-non-final-invocation-never-yields-a-value", lambda c: z3.BoolVal(True))]),
+            Case("failed", when=lambda c: observed(c) == T.S("FAILED"), raises="StoredTaskException", exact=True,
+                 ensures=[("C05:raises-the-stored-exception-of-THIS-invocation", lambda c: T_(c.exc is None) if c.exc is None else
+                           (c.exc.fields["of"].term == me(c) if "of" in c.exc.fields else T_(False)))]),
+            Case("success", when=lambda c: observed(c) == T.S("SUCCESS"),
+                 ensures=[("C05:returns-the-stored-result-of-THIS-invocation", lambda c: c.result == result_of(me(c)))]),
+            Case("final-without-outcome", when=lambda c: observed(c) == T.S("CONCURRENCY_CONTROLLED_FINAL"), raises="KeyError",
+                 ensures=[("outside-the-property(an invocation that was never run has no outcome)", lambda c: z3.BoolVal(True))]),
+            Case("final-without-outcome(stored anyway)", when=lambda c: observed(c) == T.S("CONCURRENCY_CONTROLLED_FINAL"),
+                 ensures=[("outside-the-property", lambda c: z3.BoolVal(True))]),
+        ], properties=[PID],
+        note="sequential reader; a concurrent worker only adds outcomes and moves statuses forward (J5 is kept at every step: set_invocation_result/exception)")
+    out.append(reader)
+    for c in out:
+        reg.add(c)
+    return out
+
+
 def lemmas(T, reg, ctx):
     return []
+
+
 def bounded():
     return []
